@@ -192,7 +192,7 @@ class ClohessyWiltshire(AnalyticalPropagator):
             accel_mat[:3, :] = self._mat3 @ accel_mat[:3, :] @ self._mat3.T
             accel_mat[3:, :] = self._mat3 @ accel_mat[3:, :] @ self._mat3.T
 
-        new = evol_mat @ orb + accel_mat @ accel
+        new = (evol_mat @ orb + accel_mat @ accel).copy()
         new.date = orb.date + dt
 
         return new
